@@ -126,12 +126,33 @@ DOCUMENTED = [
     'let m = module {v = NULL} => {let out = mod.v;}; let r = m{v = {a = %s}}.out.a + 1; let s = m{v = [1]}.out.0 + 1;' % P(1),
     'let m = module {v = {a = 1}} => {let out = mod.v.a;}; let r = m{v = {a = %s, b = 2}}.out + 1;' % P(1),
     'let base = {a = 1, b = {c = 2}}; let c1 = base{b = {c = "s"}}; let c2 = c1{b = {d = %s}}; let r = [c1, c2, base]; let q = c2.b.d + 1;' % P(1),
+    # parameters declared in non-alphabetical order whose shapes differ (arguments are positional)
+    'let f = func (s, n) => {label = s + "!", total = n + %s}; let r = f("a", 1);' % P(1),
+    'let f = func (zeta, alpha) => zeta + "x" + str(alpha + %s); let r = f("a", 1);' % P(1),
+    'let t = {mk = func (name, age) => {n = name + "", a = age + 1}}; let r = t.mk("bob", %s);' % P(1),
+    'let f = func (b, a, c) => [b + 1, a + "s", c && true]; let r = f(%s, "x", false);' % P(1),
+    # a parameter that shadows an outer binding of another type
+    'let x = "str"; let f = func (x) => x + 1; let r = f(%s);' % P(1),
+    'let item = "s"; let f = func (item) => item + 1; let r = f(%s);' % P(1),
+    # arithmetic on a select whose default has another type than the arm that is taken
+    'let s = select ("k", "none") => {k = 1}; let r = s + %s;' % P(1),
+    'let s = select ("k", NULL) => {k = %s}; let r = s + 1;' % P(1),
+]
+
+
+ENV_PROGRAMS = [
+    'let a = env.FOO; let b = env.BAR; let r = a + b;',
+    'let a = env.FOO; let f = func () => env.BAR; let r = a + f();',
+    'let t = {x = env.FOO, y = env.BAR}; let r = t.x + t.y;',
+    'let a = env.FOO + "!"; let n = int(env.NUM) + %s;' % P(1),
 ]
 
 
 def programs(tier):
     import C01
     ps = []
+    for t in ENV_PROGRAMS:
+        ps.append({'fam': 'env', 'text': t, 'n': 3, 'env': {'FOO': 'foo', 'BAR': 'bar', 'NUM': '7'}})
     for p in C01.programs(tier):
         ps.append({'fam': 'c01-' + p['fam'], 'text': p['text'], 'n': p['n'], 'assume': p.get('assume')})
     for t in DOCUMENTED:
@@ -165,7 +186,7 @@ def harness(ctx, case):
         ctx.assume(z3.And(S >= -1, S <= 3, z3.BVSubNoOverflow(E, A), z3.BVSubNoUnderflow(E, A, True), E - A <= 6, E - A >= -1))
     stmts = SP.subst(prog, r0.fields[0], ints)
     # A: no checker
-    cellA, rA = new_builder(ctx, ucgrun.make_env(ctx))
+    cellA, rA = new_builder(ctx, ucgrun.make_env(ctx, env_vars=case.get('env')))
     try:
         resA = ctx.call('FileBuilder::eval_stmts', [rA, stmts, NONE])
     except interp.Panic:
@@ -180,7 +201,7 @@ def harness(ctx, case):
     # B: as a file
     ctx.fs['/cwd/conf.ucg'] = case['text']
     ctx.parse_subst = {'ints': ints}
-    cellB, rB = new_builder(ctx, ucgrun.make_env(ctx))
+    cellB, rB = new_builder(ctx, ucgrun.make_env(ctx, env_vars=case.get('env')))
     resB = ctx.call('FileBuilder::build', [rB, prog.to_path('/cwd/conf.ucg')])
     out['reached'] = True
     out['asserts'] = 1
@@ -189,7 +210,7 @@ def harness(ctx, case):
     def report(kind, what, extra=None):
         m = ctx.model(extra)
         text = SP.render_text(case['text'], m, ctx, ints)
-        out['violations'].append({'key': 'C07:%s:sk=%s' % (kind, sk), 'what': '%s — program: %s' % (what, text), 'case': {'kind': 'eval', 'text': text, 'strict': True}, 'check': kind})
+        out['violations'].append({'key': 'C07:%s:sk=%s' % (kind, sk), 'what': '%s — program: %s' % (what, text), 'case': {'kind': 'eval', 'text': text, 'strict': True, 'env': case.get('env') or {}}, 'check': kind})
 
     if resB.variant != 0:
         from mirsym.bi_str import render_value
@@ -214,7 +235,7 @@ def judge(fw, v):
     ev = fw.replay(v['case'])
     with tempfile.TemporaryDirectory(prefix='ucg-verif-c07-') as d:
         open(os.path.join(d, 'conf.ucg'), 'w').write(v['case']['text'] + '\n')
-        r = fw.native().cli(['build', 'conf.ucg'], d)
+        r = fw.native().cli(['build', 'conf.ucg'], d, env=v['case'].get('env') or None)
     v['native'] = {'eval_ok': ev.get('ok'), 'build_rc': r['rc'], 'stderr': r['stderr'][-300:]}
     if v['check'] == 'build-rejects':
         return bool(ev.get('ok')) and r['rc'] != 0
